@@ -1,5 +1,6 @@
 """C17 -- flow iterators equal their Python reference (structural clauses only)."""
 import ast
+import re
 
 from .. import astutil as A
 from .. import paths as P
@@ -304,14 +305,22 @@ def check_rejection(ctx):
                        "negative path: `s = slice(*args)` not found"):
         return
     s = sl[0].targets[0].id
-    unp = [x for x in A.walk_local(init) if isinstance(x, ast.Assign) and isinstance(x.value, ast.Tuple)
-           and [A.src(e) for e in x.value.elts] == ["%s.start" % s, "%s.stop" % s, "%s.step" % s]]
-    ok = len(unp) == 1 and isinstance(unp[0].targets[0], ast.Tuple) and len(unp[0].targets[0].elts) == 3 \
-        and [A.src(e) for e in unp[0].targets[0].elts[:2]] == ["self._start", "self._stop"] and isinstance(unp[0].targets[0].elts[2], ast.Name)
+    # which target receives s.start / s.stop / s.step: one unpacking assignment or separate ones, element by element
+    got = {}
+    for x in A.walk_local(init):
+        if not isinstance(x, ast.Assign) or len(x.targets) != 1:
+            continue
+        pairs = list(zip(x.targets[0].elts, x.value.elts)) if isinstance(x.targets[0], ast.Tuple) and isinstance(x.value, ast.Tuple) \
+            and len(x.targets[0].elts) == len(x.value.elts) else [(x.targets[0], x.value)]
+        for tg, v in pairs:
+            if A.src(v) in ("%s.start" % s, "%s.stop" % s, "%s.step" % s):
+                got.setdefault(A.src(v).split(".")[-1], []).append(tg)
+    ok = all(len(got.get(k, ())) == 1 for k in ("start", "stop", "step")) and A.src(got["start"][0]) == "self._start" \
+        and A.src(got["stop"][0]) == "self._stop" and isinstance(got["step"][0], ast.Name)
     if not ctx.check("C17-b", ok, init, "the negative path does not take (self._start, self._stop, step) from (s.start, s.stop, s.step) in "
                      "this order", detail="start/stop/step normalised by slice(*args)", construct="slice-unpack"):
         return
-    step = unp[0].targets[0].elts[2].id
+    step = got["step"][0].id
     nm = {step: "step"}
     # step None -> 1
     dflt = []
@@ -357,8 +366,7 @@ def check_rejection(ctx):
         else:
             ctx.check("C17-b", A.src(b) == inner, st, "for step 1 run is `%s`, not self._run_negative_islice(flow)" % A.short(b, 70),
                       detail="step 1: the negative selection itself", construct="slice-run-step1")
-    stp = [x for x in A.walk_local(init) if isinstance(x, ast.Assign) and any(A.is_self_attr(t, "_step") for t in x.targets)
-           and x is not unp[0]]
+    stp = [x for x in A.walk_local(init) if isinstance(x, ast.Assign) and any(A.is_self_attr(t, "_step") for t in x.targets)]
     ctx.check("C17-b", len(stp) == 1 and A.src_with(stp[0].value, nm) == "step", init, "self._step is not the validated step",
               detail="_step = validated step", construct="slice-step-field")
 
@@ -569,7 +577,7 @@ def check_window(ctx):
     ctx.check("C17-e", len(it) == 1 and it[0].lineno < wdef[0].lineno, fn, "the flow is not turned into an iterator before the first window "
               "is taken: for a list the loop would start from the first value again", detail="flow = iter(flow) first", construct="window-iter")
     loops = [l for l in A.walk_local(fn) if isinstance(l, ast.For) and A.src(l.iter) == flowp]
-    ctx.instances_floor("C17-e/loops", len(loops), 2, "value loops of RunningChunkBy.run")
+    ctx.instances_floor("C17-e/loops", len(loops), 1, "value loops of RunningChunkBy.run")
     shapes = []
     for l in loops:
         for p in P.loop_body_paths(l):
@@ -593,6 +601,41 @@ def check_window(ctx):
                   construct="window-last")
         if ok:
             shapes.append(S([y for y in A.walk_body(nxt.body) if isinstance(y, ast.Yield)][0].value))
+    # a window handed to a local that is bound, branch by branch, to the container or to a one-line function around it
+    # (`new = container` / `def new(values): return container(*values)`) is handed to the container in that way
+    resolved = []
+    undecided = []
+    for sh in shapes:
+        m = re.match(r"^(\w+)\((\*?)window\)$", sh)
+        if not m or m.group(1) == "container":
+            resolved.append(sh)
+            continue
+        f, star = m.group(1), m.group(2)
+        binds = []
+        for x in A.walk_local(fn, include_self=False):
+            if isinstance(x, ast.Assign) and len(x.targets) == 1 and isinstance(x.targets[0], ast.Name) and x.targets[0].id == f:
+                binds.append("container(%swindow)" % star if S(x.value) == "container" else None)
+        for x in ast.walk(fn):
+            if isinstance(x, ast.FunctionDef) and x is not fn and x.name == f:
+                body = A.body_wo_doc(x)
+                ps = A.func_params(x)
+                r = None
+                if len(body) == 1 and isinstance(body[0], ast.Return) and isinstance(body[0].value, ast.Call) and len(ps) == 1 and not star \
+                        and S(body[0].value.func) == "container" and len(body[0].value.args) == 1 and not body[0].value.keywords:
+                    a = body[0].value.args[0]
+                    if isinstance(a, ast.Starred) and A.src(a.value) == ps[0]:
+                        r = "container(*window)"
+                    elif A.src(a) == ps[0]:
+                        r = "container(window)"
+                binds.append(r)
+        if not binds or None in binds:
+            undecided.append(sh)
+        else:
+            resolved.extend(binds)
+    if undecided:
+        ctx.unknown("C17-e", fn, "the windows are handed out as %s, which the rule cannot relate to the container" % sorted(set(undecided)))
+        return
+    shapes = resolved
     ok = set(shapes) <= {"container(window)", "container(*window)"} and len(set(shapes)) == 2
     ctx.check("C17-e", ok, fn, "the windows are handed out as %s: every yield must be container(window) or container(*window)" % sorted(set(shapes)),
               detail="windows handed to the container whole", construct="window-shapes")
